@@ -20,7 +20,7 @@ class C07(PipelineProp):
         )
 
     def gen_case(self, rng):
-        inp = P.gen_input(rng, style=rng.choice(["tpf", "fasta", "tpf"]))
+        inp = P.gen_input(rng, style=rng.choice(["tpf", "fasta", "tpf"]), double_gaps=0.2)
         # small trailing contigs so that the last texel matters
         for sc in inp["scaffolds"]:
             if rng.random() < 0.5 and sc["rows"][-1][0] == "F":
@@ -66,16 +66,15 @@ class C07(PipelineProp):
                             return (f"in {sc['name']}: {prev[1]}:{prev[2]}-{prev[3]} and {r[1]}:{r[2]}-{r[3]} are "
                                     f"directly adjacent but were not directly adjacent in the input")
                     elif case.get("pv"):
-                        if len(gaps) != 1:
-                            return f"in {sc['name']}: {len(gaps)} gap rows between two fragments"
-                        g = gaps[0]
-                        if pair in a_in and a_in[pair] and len(a_in[pair]) == 1 and g == a_in[pair][0]:
+                        if pair in a_in and a_in[pair] and all(g_ in a_in[pair] for g_ in gaps) and len(gaps) <= len(a_in[pair]):
+                            # every gap row is an input gap row separating the same two neighbours (for a run of
+                            # consecutive input gaps the left-over path keeps the last one only: DESIGN.md 13.5)
                             pass
-                        elif g == JOIN:
+                        elif gaps == [JOIN]:
                             pass
                         else:
-                            return (f"in {sc['name']}: gap {g} between {prev[1]}:{prev[2]}-{prev[3]} and "
-                                    f"{r[1]}:{r[2]}-{r[3]} is neither their input gap nor the join gap")
+                            return (f"in {sc['name']}: gap rows {gaps} between {prev[1]}:{prev[2]}-{prev[3]} and "
+                                    f"{r[1]}:{r[2]}-{r[3]} are neither their input gap nor the join gap")
                 prev = r
                 gaps = []
         return None
